@@ -1082,7 +1082,7 @@ func Run(c *vh.Ctx) {
 		r.run(cs)
 		return
 	}
-	c.Res.Rule = "a case = one hierarchy (classes with single inheritance, interfaces with multiple extends, implements edges, instance/static methods with parameter counts) rendered as origami declarations and run in-process; rel cases print, for every (object class, type) pair, instanceof / $this instanceof / T-typed parameter with the object / with $this / catch (T), and for every (object, method) pair the class whose method runs for $o->m(), parent::m(), self::s(), static::s() (probe methods written in every class, called on every object); like cases print $o like T for every pair; known cases replay the recorded static-binding deviations. Each table is compared with the Lean model and with reachability / most-derived lookup computed in Go from the description. non-trivial = has at least one extends or implements edge; distinct = distinct (kind, hierarchy)"
+	c.Res.Rule = "a case = one hierarchy (classes with single inheritance, interfaces with multiple extends, implements edges, instance/static methods with parameter counts) rendered as origami declarations and run in-process; rel cases print, for every (object class, type) pair, instanceof / $this instanceof / T-typed parameter with the object / with $this / catch (T), and for every (object, method) pair the class whose method runs for $o->m(), parent::m(), self::s(), static::s() (probe methods written in every class, called on every object); like cases print $o like T for every pair; exc cases let root classes extend the std classes Exception / RuntimeException and print instanceof / typed parameter / catch against the user types plus Exception, RuntimeException, Throwable; known cases replay the recorded static-binding deviations. Each table is compared with the Lean model and with reachability / most-derived lookup computed in Go from the description. non-trivial = has at least one extends or implements edge; distinct = distinct (kind, hierarchy)"
 
 	// 0. committed corpus of past failures
 	if files, _ := filepath.Glob("../corpus/C08/*.json"); len(files) > 0 {
